@@ -146,6 +146,79 @@ func decisionTable(start *ssa.BasicBlock, cfg dtConfig) []dtLeaf {
 				}
 			}
 		case *ssa.BinOp:
+			// b == flag / b != flag with flag a boolean constant (or a parameter bound to one for this summary)
+			if c.Op == token.EQL || c.Op == token.NEQ {
+				for _, side := range [][2]ssa.Value{{c.X, c.Y}, {c.Y, c.X}} {
+					bv, isK := constBool(side[1])
+					if !isK {
+						bv, isK = scanParamBools[side[1]]
+					}
+					if !isK {
+						continue
+					}
+					if t, f, ok := split(side[0], s, path, depth+1); ok {
+						if bv == (c.Op == token.EQL) {
+							return t, f, true
+						}
+						return f, t, true
+					}
+				}
+			}
+			// classify(c) == K: a pure classifier of the repository applied to the variable, compared with a constant:
+			// the classes are read off the classifier's own decision table
+			if c.Op == token.EQL || c.Op == token.NEQ {
+				for _, side := range [][2]ssa.Value{{c.X, c.Y}, {c.Y, c.X}} {
+					call, isCall := side[0].(*ssa.Call)
+					kv, isK := constInt(side[1])
+					if !isCall || !isK || call.Common().IsInvoke() || len(call.Common().Args) != 1 || depth >= 4 {
+						continue
+					}
+					arg := strip(call.Common().Args[0])
+					if arg != cfg.Var && !cfg.Aliases[arg] {
+						continue
+					}
+					g := staticCallee(call.Common())
+					if g == nil || g.Blocks == nil || len(g.Params) != 1 || g.Pkg == nil || !strings.HasPrefix(g.Pkg.Pkg.Path(), modulePath) {
+						continue
+					}
+					sub := decisionTable(g.Blocks[0], dtConfig{Var: g.Params[0], Dom: s, Leaf: func(*ssa.BasicBlock) (string, bool) { return "", false }, Max: 2000, CallSet: cfg.CallSet, Tables: cfg.Tables})
+					eq := &relang.Set{}
+					okSub := true
+					for _, l := range sub {
+						if l.Effect != "return" || len(l.Tags) > 0 {
+							okSub = false
+							break
+						}
+						ret, isRet := l.Block.Instrs[len(l.Block.Instrs)-1].(*ssa.Return)
+						if !isRet || len(ret.Results) != 1 {
+							okSub = false
+							break
+						}
+						rv := ret.Results[0]
+						if ph, isPhi := rv.(*ssa.Phi); isPhi && ph.Block() == l.Block && l.From != nil {
+							for i, pr := range l.Block.Preds {
+								if pr == l.From {
+									rv = ph.Edges[i]
+								}
+							}
+						}
+						k, isConst := constInt(rv)
+						if !isConst {
+							okSub = false
+							break
+						}
+						if k == kv {
+							eq = eq.Union(l.Set)
+						}
+					}
+					if okSub {
+						if c.Op == token.EQL {
+							return eq, s.Minus(eq), true
+						}
+						return s.Minus(eq), eq, true
+					}
+				}
+			}
 			// a comparison of a value computed from the variable by constant arithmetic (c | 0x20,
 			// c - '0', …): evaluated element by element over the (small) current set
 			if _, direct := derive(c.X, cfg, 0); !direct {
